@@ -15,7 +15,6 @@ import (
 	"encoding/json"
 	"fmt"
 	"sort"
-	"strconv"
 	"strings"
 
 	"github.com/graphql-go/graphql"
@@ -26,88 +25,7 @@ import (
 
 func init() { props["C10"] = genC10 }
 
-// ---------------------------------------------------------------- values
-
-// K: 0 null, 1 int, 2 string, 3 bool, 5 list, 6 object
-type c10KV struct {
-	N string
-	V c10Val
-}
-type c10Val struct {
-	K int
-	I int
-	S string
-	B bool
-	L []c10Val
-	F []c10KV
-}
-
-func (v c10Val) toGo() interface{} {
-	switch v.K {
-	case 1:
-		return v.I
-	case 2:
-		return v.S
-	case 3:
-		return v.B
-	case 5:
-		l := []interface{}{}
-		for _, x := range v.L {
-			l = append(l, x.toGo())
-		}
-		return l
-	case 6:
-		m := map[string]interface{}{}
-		for _, kv := range v.F {
-			m[kv.N] = kv.V.toGo()
-		}
-		return m
-	}
-	return nil
-}
-
-func (v c10Val) coq() string {
-	switch v.K {
-	case 1:
-		return "(VInt " + coqZ(v.I) + ")"
-	case 2:
-		return "(VStr " + c10Bytes(v.S) + ")"
-	case 3:
-		return "(VBool " + coqBool(v.B) + ")"
-	case 5:
-		xs := []string{}
-		for _, x := range v.L {
-			xs = append(xs, x.coq())
-		}
-		return "(VList " + coqList(xs) + ")"
-	case 6:
-		xs := []string{}
-		for _, kv := range v.F {
-			xs = append(xs, "("+c10Bytes(kv.N)+", "+kv.V.coq()+")")
-		}
-		return "(VObj " + coqList(xs) + ")"
-	}
-	return "VNull"
-}
-
-func (v c10Val) String() string {
-	b, _ := json.Marshal(v.toGo())
-	return string(b)
-}
-
-func c10FromGo(x interface{}) *c10Val {
-	switch x := x.(type) {
-	case nil:
-		return nil
-	case bool:
-		return &c10Val{K: 3, B: x}
-	case int:
-		return &c10Val{K: 1, I: x}
-	case string:
-		return &c10Val{K: 2, S: x}
-	}
-	return &c10Val{K: 2, S: fmt.Sprint(x)}
-}
+// values and their Go representations: c10val.go
 
 func c10Bytes(s string) string { return c11Name(s) }
 
@@ -148,74 +66,6 @@ func (w *c11World) directive(d c10Dir) *graphql.Directive {
 
 var c10Descs = []string{"", "", "d", "a description", "a description that is longer than twenty-four bytes",
 	"with \"quotes\", a \\ backslash and é", "line one\nline two"}
-var c10Strings = []string{"", "x", "hello world", "a-b_c", "B"}
-
-func c10GenDefault(r *Rng, c *c11Cfg, t c11Ref, depth int) *c10Val {
-	switch t.K {
-	case 3:
-		return c10GenDefault(r, c, *t.Of, depth)
-	case 2:
-		v := &c10Val{K: 5}
-		for i, n := 0, r.Intn(4); i < n; i++ {
-			x := c10GenDefault(r, c, *t.Of, depth+1)
-			if x == nil {
-				return nil
-			}
-			v.L = append(v.L, *x)
-		}
-		return v
-	case 1:
-		switch t.ID {
-		case c11IDInt:
-			return &c10Val{K: 1, I: r.Intn(101) - 50}
-		case c11IDString, c11IDID:
-			return &c10Val{K: 2, S: r.Pick(c10Strings)}
-		case c11IDBoolean:
-			return &c10Val{K: 3, B: r.Bool()}
-		}
-		d := c.def(t.ID)
-		if d == nil {
-			return nil
-		}
-		switch d.Kind {
-		case c11Enum:
-			return &c10Val{K: 1, I: 1 + r.Intn(len(d.Values))}
-		case c11Input:
-			if depth > 2 {
-				return nil
-			}
-			v := &c10Val{K: 6}
-			fs := append([]c11IField{}, d.IFields...)
-			sort.Slice(fs, func(i, j int) bool { return fs[i].Name < fs[j].Name })
-			for _, f := range fs {
-				must := f.Def != nil || f.T.K == 3
-				if !must && !r.Chance(70) {
-					continue
-				}
-				x := c10GenDefault(r, c, f.T, depth+1)
-				if x == nil {
-					if must {
-						return nil
-					}
-					continue
-				}
-				v.F = append(v.F, c10KV{f.Name, *x})
-			}
-			return v
-		}
-	}
-	return nil
-}
-
-func c10IsObjectish(c *c11Cfg, t c11Ref) bool {
-	for _, id := range c11RefIDs(t, nil) {
-		if d := c.def(id); d != nil && d.Kind == c11Input {
-			return true
-		}
-	}
-	return false
-}
-
 func c10Decorate(r *Rng, c *c11Cfg) {
 	// pass 1: input field defaults (never of input-object type, so that object defaults stay canonical)
 	for _, d := range c.Defs {
@@ -359,9 +209,25 @@ func c10DirDec(w *c11World, d *graphql.Directive) string {
 	for _, l := range d.Locations {
 		locs = append(locs, c10Bytes(l))
 	}
+	// the configured default of a custom directive's argument is the configuration's value (the Go
+	// type that carries it is not read back); the library's own directives are read from its objects
+	configured := map[string]*c10Val{}
+	custom := false
+	for _, xd := range w.cfg.XDirs {
+		if xd.Name == d.Name {
+			custom = true
+			for _, a := range xd.Args {
+				configured[a.Name] = a.Def
+			}
+		}
+	}
 	as := []string{}
 	for _, a := range d.Args {
-		as = append(as, fmt.Sprintf("(%s, (%s, %s))", c10Bytes(a.PrivateName), c11RefCoq(w.refOf(a.Type)), c10ArgDec(a.PrivateDescription, c10FromGoDeep(a.DefaultValue))))
+		def := c10FromGoDeep(a.DefaultValue)
+		if custom {
+			def = configured[a.PrivateName]
+		}
+		as = append(as, fmt.Sprintf("(%s, (%s, %s))", c10Bytes(a.PrivateName), c11RefCoq(w.refOf(a.Type)), c10ArgDec(a.PrivateDescription, def)))
 	}
 	return fmt.Sprintf("(DD %s %s %s %s)", c10Bytes(d.Name), c10Text(d.Description), coqList(locs), coqList(as))
 }
@@ -415,8 +281,15 @@ func c10Decor(w *c11World, c *c11Cfg, dirs []*graphql.Directive, full bool) stri
 // ---------------------------------------------------------------- introspection JSON -> Gallina description
 
 type c10Proj struct {
-	fail string
-	full bool // false: the library's own types are left out of the description
+	fail      string
+	full      bool // false: the library's own types are left out of the description
+	unordered bool // types, the fields of a type or its input fields were not listed in name order
+}
+
+func (p *c10Proj) noteOrder(xs []c10Named) {
+	if !sort.SliceIsSorted(xs, func(i, j int) bool { return xs[i].name < xs[j].name }) {
+		p.unordered = true
+	}
 }
 
 func (p *c10Proj) str(x interface{}) string {
@@ -452,10 +325,9 @@ func (p *c10Proj) dref(x interface{}) (string, string) {
 func c10Lit(v ast.Value) string {
 	switch v := v.(type) {
 	case *ast.IntValue:
-		if n, err := strconv.Atoi(v.Value); err == nil {
-			return "(LInt " + coqZ(n) + ")"
-		}
-		return "LOther"
+		return "(LInt " + c10Bytes(v.Value) + ")"
+	case *ast.FloatValue:
+		return "(LFloat " + c10Bytes(v.Value) + ")"
 	case *ast.StringValue:
 		return "(LStr " + c10Bytes(v.Value) + ")"
 	case *ast.BooleanValue:
@@ -475,32 +347,38 @@ func c10Lit(v ast.Value) string {
 		}
 		return "(LObj " + coqList(xs) + ")"
 	}
-	return "LOther"
+	return "(LEnum " + c10Bytes("$") + ")" // a variable: not a constant
 }
 
+// the library's own reading of a defaultValue string, or nil
+func c10ParseLiteral(s string) ast.Value {
+	doc, err := parser.Parse(parser.ParseParams{Source: "{f(a: " + s + "\n)}"})
+	if err != nil || len(doc.Definitions) != 1 {
+		return nil
+	}
+	op, ok := doc.Definitions[0].(*ast.OperationDefinition)
+	if !ok || op.SelectionSet == nil || len(op.SelectionSet.Selections) != 1 {
+		return nil
+	}
+	f, ok := op.SelectionSet.Selections[0].(*ast.Field)
+	if !ok || len(f.Arguments) != 1 || f.Name == nil || f.Name.Value != "f" {
+		return nil
+	}
+	return f.Arguments[0].Value
+}
+
+// the reported defaultValue crosses as its bytes, next to what the library's parser makes of it;
+// whether it is a literal that gives back the default is decided in Coq
 func (p *c10Proj) defaultLit(x interface{}) string {
 	if x == nil {
 		return "DNone"
 	}
 	s := p.str(x)
-	doc, err := parser.Parse(parser.ParseParams{Source: "{f(a: " + s + ")}"})
-	if err != nil {
-		p.fail = fmt.Sprintf("defaultValue %q is not a GraphQL literal: %v", s, err)
-		return "DNone"
+	lit := "None"
+	if v := c10ParseLiteral(s); v != nil {
+		lit = "(Some " + c10Lit(v) + ")"
 	}
-	var val ast.Value
-	if len(doc.Definitions) == 1 {
-		if op, ok := doc.Definitions[0].(*ast.OperationDefinition); ok && len(op.SelectionSet.Selections) == 1 {
-			if f, ok := op.SelectionSet.Selections[0].(*ast.Field); ok && len(f.Arguments) == 1 {
-				val = f.Arguments[0].Value
-			}
-		}
-	}
-	if val == nil {
-		p.fail = fmt.Sprintf("defaultValue %q is not one GraphQL literal", s)
-		return "DNone"
-	}
-	return "(DLit " + c10Lit(val) + ")"
+	return "(DText " + c10Bytes(s) + " " + lit + ")"
 }
 
 type c10Named struct{ name, term string }
@@ -572,11 +450,12 @@ func (p *c10Proj) description(data interface{}) string {
 		p.fail = "no __schema in the result"
 		return ""
 	}
-	var types []c10Named
+	var types, allTypes []c10Named
 	tl, _ := p.list(sch["types"])
 	for _, e := range tl {
 		m, _ := e.(map[string]interface{})
 		name := p.str(m["name"])
+		allTypes = append(allTypes, c10Named{name: name})
 		if !p.full && c10BuiltinNames[name] {
 			continue
 		}
@@ -590,6 +469,7 @@ func (p *c10Proj) description(data interface{}) string {
 				n := p.str(fm["name"])
 				xs = append(xs, c10Named{n, fmt.Sprintf("(DF %s %s %s %s %s %s)", c10Bytes(n), c10Text(p.str(fm["description"])), p.inputs(fm["args"]), t, coqBool(dep), p.optStr(fm["deprecationReason"]))})
 			}
+			p.noteOrder(xs)
 			fields = "(Some " + c10Sorted(xs) + ")"
 		}
 		enums := "None"
@@ -605,11 +485,20 @@ func (p *c10Proj) description(data interface{}) string {
 		}
 		inputs := "None"
 		if m["inputFields"] != nil {
+			if l, _ := m["inputFields"].([]interface{}); true {
+				var ns []c10Named
+				for _, ie := range l {
+					im, _ := ie.(map[string]interface{})
+					ns = append(ns, c10Named{name: p.str(im["name"])})
+				}
+				p.noteOrder(ns)
+			}
 			inputs = "(Some " + p.inputs(m["inputFields"]) + ")"
 		}
 		types = append(types, c10Named{name, fmt.Sprintf("(DT %s %s %s %s %s %s %s %s)", c10Bytes(p.str(m["kind"])), c10Bytes(name), c10Text(p.str(m["description"])),
 			fields, p.refs(m["interfaces"]), p.refs(m["possibleTypes"]), enums, inputs)})
 	}
+	p.noteOrder(allTypes)
 	var dirs []c10Named
 	dl, _ := p.list(sch["directives"])
 	for _, e := range dl {
@@ -647,10 +536,18 @@ func c10JSON(res *graphql.Result) (interface{}, error) {
 
 func genC10(tier string, seed uint64, n int, e *Emitter) {
 	if n == 0 {
-		n = 48
+		n = 32
 		if tier == "thorough" {
 			n = 2500
 		}
+	}
+	// corpus first: one hand-made schema with a default of every kind (with and without the
+	// library's own types in the compared description)
+	c10RunCase(e, NewRng(seed^0xC10, 1<<40), c10Corpus(false), nil, false, []string{"corpus"})
+	if tier == "thorough" {
+		c10RunCase(e, NewRng(seed^0xC10, 1<<40+1), c10Corpus(false), nil, true, []string{"corpus"})
+		// a default without a literal in this edition of the language: a known finding
+		c10RunCase(e, NewRng(seed^0xC10, 1<<40+2), c10Corpus(true), nil, false, []string{"corpus"})
 	}
 	for i := 0; i < n; i++ {
 		r := NewRng(seed^0xC10, uint64(i))
@@ -673,87 +570,239 @@ func genC10(tier string, seed uint64, n int, e *Emitter) {
 			later = append(later, later[0]) // appended twice
 		}
 		c.Types = keep
-		tags := []string{}
-		if len(later) > 0 {
-			tags = append(tags, "appended")
+		var tags []string
+		if r.Chance(85) {
+			// a carrier appended after construction: a union whose member is a fresh object (reachable from
+			// nowhere else) that implements an interface the schema already has; the interface's
+			// possibleTypes must then list the new object, as in the same schema built at once
+			if u := c10LateImplementer(r, c); u >= 0 {
+				k := r.Intn(len(later) + 1)
+				later = append(later[:k], append([]int{u}, later[k:]...)...)
+				tags = append(tags, "late-implementer")
+			}
 		}
-		if len(c.XDirs) > 0 {
-			tags = append(tags, "custom-directives")
+		c10RunCase(e, r, c, later, i%8 == 0, tags)
+	}
+}
+
+// adds an object implementing an interface of the schema as constructed (same fields and
+// arguments as the interface declares) and a union around it; returns the union's id, or -1
+func c10LateImplementer(r *Rng, c *c11Cfg) int {
+	reach := c11Reachable(c, nil)
+	var ifaces []*c11Def
+	next := 0
+	for _, d := range c.Defs {
+		if d.Kind == c11Interface && reach[d.ID] && len(d.Fields) > 0 {
+			ifaces = append(ifaces, d)
 		}
-		full := i%8 == 0
-		var w *c11World
-		var s graphql.Schema
-		var res, res2 *graphql.Result
-		var decor, buildErr string
-		var dep []c10DepQuery
-		pm := guard(func() {
-			w = c11NewWorld(c)
-			sc := w.schemaConfig(nil)
-			var err error
-			s, err = graphql.NewSchema(sc)
-			if err != nil {
+		if d.ID >= next {
+			next = d.ID + 1
+		}
+	}
+	if len(ifaces) == 0 {
+		return -1
+	}
+	iface := ifaces[r.Intn(len(ifaces))]
+	o := &c11Def{ID: next, Kind: c11Object, Name: fmt.Sprintf("Late%d", next), Desc: "appended through a union", IsTypeOf: true,
+		Slot: c11SlotList, Members: []int{iface.ID}, Thunk: r.Bool()}
+	for _, f := range iface.Fields {
+		g := f
+		g.Args = append([]c11Arg{}, f.Args...)
+		o.Fields = append(o.Fields, g)
+	}
+	if r.Bool() {
+		o.Fields = append(o.Fields, c11Field{Name: "lateOnly", T: c11Named(c11IDString)})
+	}
+	u := &c11Def{ID: next + 1, Kind: c11Union, Name: fmt.Sprintf("LateU%d", next+1), ResolveType: true, Slot: c11SlotList, Members: []int{o.ID}}
+	if r.Bool() {
+		u.Slot = c11SlotThunk
+	}
+	c.Defs = append(c.Defs, o, u)
+	return u.ID
+}
+
+// the defaultValue strings of an introspection result, keyed like c10Defaults
+func c10ReportedDefaults(data interface{}) map[string]string {
+	out := map[string]string{}
+	root, _ := data.(map[string]interface{})
+	sch, _ := root["__schema"].(map[string]interface{})
+	inputs := func(prefix, suffix string, x interface{}) {
+		l, _ := x.([]interface{})
+		for _, e := range l {
+			m, _ := e.(map[string]interface{})
+			n, _ := m["name"].(string)
+			if dv, ok := m["defaultValue"].(string); ok {
+				out[prefix+n+suffix] = dv
+			}
+		}
+	}
+	tl, _ := sch["types"].([]interface{})
+	for _, e := range tl {
+		m, _ := e.(map[string]interface{})
+		tn, _ := m["name"].(string)
+		fl, _ := m["fields"].([]interface{})
+		for _, fe := range fl {
+			fm, _ := fe.(map[string]interface{})
+			fn, _ := fm["name"].(string)
+			inputs(tn+"."+fn+"(", ":)", fm["args"])
+		}
+		inputs(tn+".", "", m["inputFields"])
+	}
+	dl, _ := sch["directives"].([]interface{})
+	for _, e := range dl {
+		m, _ := e.(map[string]interface{})
+		dn, _ := m["name"].(string)
+		inputs("@"+dn+"(", ":)", m["args"])
+	}
+	return out
+}
+
+// every (type, configured default) of a configuration
+func c10Defaults(c *c11Cfg, f func(where string, t c11Ref, v *c10Val)) {
+	for _, d := range c.Defs {
+		for _, fl := range d.Fields {
+			for _, a := range fl.Args {
+				if a.Def != nil {
+					f(d.Name+"."+fl.Name+"("+a.Name+":)", a.T, a.Def)
+				}
+			}
+		}
+		for _, fl := range d.IFields {
+			if fl.Def != nil {
+				f(d.Name+"."+fl.Name, fl.T, fl.Def)
+			}
+		}
+	}
+	for _, xd := range c.XDirs {
+		for _, a := range xd.Args {
+			if a.Def != nil {
+				f("@"+xd.Name+"("+a.Name+":)", a.T, a.Def)
+			}
+		}
+	}
+}
+
+func c10RunCase(e *Emitter, r *Rng, c *c11Cfg, later []int, full bool, tags []string) {
+	tags = append([]string{}, tags...)
+	if len(later) > 0 {
+		tags = append(tags, "appended")
+	}
+	if len(c.XDirs) > 0 {
+		tags = append(tags, "custom-directives")
+	}
+	var w *c11World
+	var s graphql.Schema
+	var res, res2 *graphql.Result
+	var decor, buildErr, probeFail string
+	var dep []c10DepQuery
+	feat := c10Features(c)
+	noLiteral := false
+	for _, f := range feat {
+		if f == "no-literal-default" {
+			noLiteral = true
+		}
+	}
+	pm := guard(func() {
+		w = c11NewWorld(c)
+		sc := w.schemaConfig(nil)
+		var err error
+		s, err = graphql.NewSchema(sc)
+		if err != nil {
+			buildErr = err.Error()
+			return
+		}
+		for _, id := range later {
+			if err := s.AppendType(w.types[id]); err != nil {
 				buildErr = err.Error()
 				return
 			}
-			for _, id := range later {
-				if err := s.AppendType(w.types[id]); err != nil {
-					buildErr = err.Error()
+		}
+		decor = c10Decor(w, c, s.Directives(), full)
+		res = graphql.Do(graphql.Params{Schema: s, RequestString: testutil.IntrospectionQuery})
+		res2 = graphql.Do(graphql.Params{Schema: s, RequestString: testutil.IntrospectionQuery})
+		dep = c10DepQueries(r, c, w, &s)
+	})
+	desc := map[string]interface{}{"config": c11Desc(c), "appended": fmt.Sprint(later)}
+	var defs []string
+	c10Defaults(c, func(where string, t c11Ref, v *c10Val) { defs = append(defs, where+" = "+v.String()) })
+	if len(defs) > 0 {
+		desc["defaults"] = defs
+	}
+	base := Case{Group: "introspection", Desc: desc, Tags: tags}
+	if pm != "" {
+		base.Fail = "NewSchema/AppendType/Do: " + pm
+		e.Emit(base)
+		return
+	}
+	if buildErr != "" {
+		// not a C10 matter (C11 judges construction); skip
+		return
+	}
+	if len(res.Errors) > 0 {
+		base.Fail = fmt.Sprintf("introspection query returned errors: %v", res.Errors)
+		e.Emit(base)
+		return
+	}
+	data, err := c10JSON(res)
+	if err != nil {
+		base.Fail = "result is not JSON: " + err.Error()
+		e.Emit(base)
+		return
+	}
+	// the same request twice gives the same bytes (the order of types, fields, arguments, possible
+	// types and directives does not depend on map iteration)
+	b1, _ := json.Marshal(res.Data)
+	b2, _ := json.Marshal(res2.Data)
+	if string(b1) != string(b2) {
+		base.Fail = "two runs of the introspection query on one schema gave different results"
+	}
+	p := &c10Proj{full: full}
+	d := p.description(data)
+	if p.fail != "" {
+		base.Fail = p.fail
+		e.Emit(base)
+		return
+	}
+	if !noLiteral && base.Fail == "" {
+		// the property's sentence end to end on the implementation: every reported defaultValue,
+		// handed back to the library as an argument value of the same type, is received by the
+		// resolver as the configured default
+		reported := c10ReportedDefaults(data)
+		if pm := guard(func() {
+			c10Defaults(c, func(where string, t c11Ref, v *c10Val) {
+				if probeFail != "" {
 					return
 				}
-			}
-			decor = c10Decor(w, c, s.Directives(), full)
-			res = graphql.Do(graphql.Params{Schema: s, RequestString: testutil.IntrospectionQuery})
-			dep = c10DepQueries(r, c, w, &s)
-			_ = res2
-		})
-		desc := map[string]interface{}{"config": c11Desc(c), "appended": fmt.Sprint(later)}
-		base := Case{Group: "introspection", Desc: desc, Tags: tags}
-		if pm != "" {
-			base.Fail = "NewSchema/AppendType/Do: " + pm
-			e.Emit(base)
-			continue
+				text, ok := reported[where]
+				if !ok {
+					return // the type is not in the type map (unreachable definition)
+				}
+				if msg := c10Probe(w.ref(t), text, *v); msg != "" {
+					probeFail = where + ": " + msg
+				}
+			})
+		}); pm != "" {
+			probeFail = "probe: " + pm
 		}
-		if buildErr != "" {
-			// not a C10 matter (C11 judges construction); skip
-			continue
-		}
-		if len(res.Errors) > 0 {
-			base.Fail = fmt.Sprintf("introspection query returned errors: %v", res.Errors)
-			e.Emit(base)
-			continue
-		}
-		data, err := c10JSON(res)
-		if err != nil {
-			base.Fail = "result is not JSON: " + err.Error()
-			e.Emit(base)
-			continue
-		}
-		p := &c10Proj{full: full}
-		d := p.description(data)
-		if p.fail != "" {
-			base.Fail = p.fail
-			e.Emit(base)
-			continue
-		}
-		app := c11TypesCoq(later)
-		feat := c10Features(c)
-		base.Tags = append(base.Tags, feat...)
-		base.NT = len(feat) >= 3
-		subs := []string{}
-		for _, q := range dep {
-			if q.fail != "" {
-				base.Fail = q.fail
-				continue
-			}
-			subs = append(subs, fmt.Sprintf("SubQ %s %s %s %s %s", coqN(q.id), coqBool(q.incl), q.fields, q.enums, c10Bytes(q.typename)))
-			desc["subquery_"+fmt.Sprint(len(subs))] = q.query + " => " + q.result
-		}
-		if full {
-			base.Tags = append(base.Tags, "with-library-types")
-		}
-		base.Coq = fmt.Sprintf("IntroCase %s %s %s %s %s %s", coqBool(full), c11CfgCoq(c), app, decor, d, coqList(subs))
-		e.Emit(base)
+		base.Fail = probeFail
 	}
+	app := c11TypesCoq(later)
+	base.Tags = append(base.Tags, feat...)
+	base.NT = len(feat) >= 3
+	subs := []string{}
+	for _, q := range dep {
+		if q.fail != "" {
+			base.Fail = q.fail
+			continue
+		}
+		subs = append(subs, fmt.Sprintf("SubQ %s %s %s %s %s", coqN(q.id), coqBool(q.incl), q.fields, q.enums, c10Bytes(q.typename)))
+		desc["subquery_"+fmt.Sprint(len(subs))] = q.query + " => " + q.result
+	}
+	if full {
+		base.Tags = append(base.Tags, "with-library-types")
+	}
+	base.Coq = fmt.Sprintf("IntroCase %s %s %s %s %s %s %s", coqBool(full), c11CfgCoq(c), app, decor, d, coqBool(!p.unordered), coqList(subs))
+	e.Emit(base)
 }
 
 func c10Features(c *c11Cfg) []string {
@@ -766,15 +815,6 @@ func c10Features(c *c11Cfg) []string {
 		}
 		return n
 	}
-	noteDef := func(v *c10Val) {
-		if v == nil {
-			return
-		}
-		set["default"] = true
-		if v.K >= 5 {
-			set["non-scalar-default"] = true
-		}
-	}
 	for _, d := range c.Defs {
 		if d.Kind == c11Interface || d.Kind == c11Union {
 			set["abstract"] = true
@@ -786,17 +826,9 @@ func c10Features(c *c11Cfg) []string {
 			if f.Dep != "" {
 				set["deprecated"] = true
 			}
-			for _, a := range f.Args {
-				noteDef(a.Def)
-				if a.Def != nil && a.Def.K == 1 && c.def(c11RefIDs(a.T, nil)[0]) != nil {
-					set["enum-default"] = true
-				}
-			}
-		}
-		for _, f := range d.IFields {
-			noteDef(f.Def)
 		}
 	}
+	c10Defaults(c, func(where string, t c11Ref, v *c10Val) { c10DefaultTags(set, c, t, v) })
 	var out []string
 	for k := range set {
 		out = append(out, k)
